@@ -336,4 +336,202 @@ theorem inputAssign_perm {σ τ τ' : Assign} {ls ls' : List Leaf} (hm : ∀ l, 
         have e2 : ∀ l ∈ ls', l.name ≠ n := fun l hl h => hn ⟨l, (hm l).mpr hl, h⟩
         rw [s1.2 n e1, s2.2 n e2]
 
+/-! ### `inputAssign` sees `σ` and `τ` only through `get` -/
+
+theorem inputStep_congr {σ σ' τ τ' : Assign} (hσ : SameGet σ σ') (hτ : SameGet τ τ') (acc : Assign) (l : Leaf) :
+    inputStep σ τ acc l = inputStep σ' τ' acc l := by
+  unfold inputStep; rw [hσ l.name, hτ l.name]
+
+theorem inputAssign_congr {σ σ' τ τ' : Assign} (hσ : SameGet σ σ') (hτ : SameGet τ τ') (ls : List Leaf) :
+    inputAssign σ τ ls = inputAssign σ' τ' ls := by
+  rw [inputAssign_eq, inputAssign_eq]
+  have : inputStep σ τ = inputStep σ' τ' := by funext acc l; exact inputStep_congr hσ hτ acc l
+  rw [this]
+
+theorem redCell_congr {σ σ' τ τ' : Assign} (hσ : SameGet σ σ') (hτ : SameGet τ τ') (v : List Dim) (s : List Nat) :
+    redCell v s σ τ = redCell v s σ' τ' := by
+  unfold redCell; rw [inputAssign_congr hσ hτ]
+
+theorem redX_getInvariant (f : String) (v : List Dim) (s : List Nat) : GetInvariant (redX f v s) := by
+  intro σ σ' h
+  unfold redX redArgs
+  have : redCell v s σ = redCell v s σ' := by funext τ; exact redCell_congr h (fun _ => rfl) v s
+  rw [this]
+
+/-! ### regrouping the input view -/
+
+theorem redX_regroup_input (f : String) (pre mid post : List Dim) :
+    redX f (pre ++ [Dim.flat mid] ++ post) (viewShape (pre ++ [Dim.flat mid] ++ post))
+      = redX f (pre ++ mid ++ post) (viewShape (pre ++ mid ++ post)) := by
+  funext σ
+  have h1 : redCell (pre ++ [Dim.flat mid] ++ post) (viewShape (pre ++ [Dim.flat mid] ++ post)) σ
+      = redCell (pre ++ mid ++ post) (viewShape (pre ++ mid ++ post)) σ := by
+    funext τ
+    simp only [redCell, leavesL_regroup, cellAt_regroup]
+  simp only [redX, redArgs, markedAxes, leavesL_regroup, h1]
+
+/-! ### permuting the input view together with the tensor -/
+
+/-- Values that `inputAssign` can give are below the sizes of the leaves. -/
+def ValsInRange (σ τ : Assign) (ls : List Leaf) : Prop := ∀ l ∈ ls, ∀ x, inVal σ τ l = some x → x < l.size
+
+theorem redCell_permute_input {v v' : List Dim} {perm : List Nat} {plan : Plan} {σ τ : Assign}
+    (hperm : isPermOf perm v.length = true) (hv' : permuteL perm v = some v')
+    (hc : Dim.concatFreeL v = true) (hcons : Consistent (Dim.leavesL v)) (hms : MarkSep (Dim.leavesL v))
+    (hplan : planInstr [viewShape v] (.transpose 0 perm) = .ok plan)
+    (hr : ValsInRange σ τ (Dim.leavesL v)) :
+    (redCell v' (viewShape v') σ τ).map (subst [⟨plan.shape, plan.cells⟩]) = redCell v (viewShape v) σ τ := by
+  unfold redCell
+  rcases inputAssign_perm (σ := σ) (leavesL_permute hperm hv') hms hcons (fun _ => rfl : SameGet τ τ) with
+    ⟨h1, h2⟩ | ⟨a, a', h1, h2, hsg, hvals⟩
+  · rw [h1, h2]; rfl
+  · rw [h1, h2]
+    have hb : BoundedOn a (Dim.leavesL v) := by
+      intro l hl
+      obtain ⟨hg, hne⟩ := hvals l hl
+      cases hx : inVal σ τ l with
+      | none => exact absurd hx hne
+      | some x => exact ⟨x, by rw [hg, hx], hr l hl x hx⟩
+    have := (cellAt_permute_input (shapes := [viewShape v]) (x := 0) hperm hv' hc (hb.sameGet hsg) rfl hplan).2
+    simp only []
+    rw [this, ← cellAt_sameGet hsg]
+
+theorem valsInRange {v w : List Dim} {σ τ : Assign} {ls : List Leaf} (hm : ∀ l, l ∈ ls ↔ l ∈ Dim.leavesL v)
+    (hcons : Consistent (Dim.leavesL v ++ Dim.leavesL w))
+    (hσ : σ ∈ outAssignments w) (hτ : τ ∈ assignments (axesOf (ls.filter (·.marked)))) :
+    ValsInRange σ τ (Dim.leavesL v) := by
+  have hcv : Consistent (Dim.leavesL v) :=
+    fun a ha b hb => hcons a (List.mem_append_left _ ha) b (List.mem_append_left _ hb)
+  have hcf : Consistent (ls.filter (·.marked)) := fun a ha b hb =>
+    hcv a ((hm a).mp (List.mem_filter.mp ha).1) b ((hm b).mp (List.mem_filter.mp hb).1)
+  intro l hl x hx
+  unfold inVal at hx
+  by_cases hmk : l.marked = true
+  · simp only [hmk, if_true] at hx
+    obtain ⟨s, hs, hlt⟩ := assignments_get_some _ τ hτ l.name x hx
+    obtain ⟨l', hl', hn, hsz⟩ := (mem_axesOf hcf _).mp hs
+    have : l'.size = l.size := hcv l' ((hm l').mp (List.mem_filter.mp hl').1) l hl hn
+    simp only at hsz
+    omega
+  · simp only [hmk, Bool.false_eq_true, if_false] at hx
+    cases hg : σ.get l.name with
+    | some y =>
+      simp only [hg, Option.some.injEq] at hx
+      subst hx
+      exact outAssignments_inRange hcons hσ l hl y hg
+    | none =>
+      simp only [hg] at hx
+      by_cases hs : (l.size == 1) = true
+      · simp only [hs, if_true, Option.some.injEq] at hx
+        have : l.size = 1 := by simpa using hs
+        omega
+      · simp [hs] at hx
+
+/-- The reduced cells of the permuted operation, substituted, are a permutation of the original reduced cells. -/
+theorem redArgs_permute_input {v v' w : List Dim} {perm : List Nat} {plan : Plan} {σ : Assign}
+    (hperm : isPermOf perm v.length = true) (hv' : permuteL perm v = some v')
+    (hc : Dim.concatFreeL v = true) (hcons : Consistent (Dim.leavesL v ++ Dim.leavesL w))
+    (hms : MarkSep (Dim.leavesL v)) (hplan : planInstr [viewShape v] (.transpose 0 perm) = .ok plan)
+    (hσ : σ ∈ outAssignments w) :
+    (redArgs v' (viewShape v') σ = none ∧ redArgs v (viewShape v) σ = none) ∨
+      ∃ r' r, redArgs v' (viewShape v') σ = some r' ∧ redArgs v (viewShape v) σ = some r ∧
+        r'.map (subst [⟨plan.shape, plan.cells⟩]) ~ r := by
+  have hcv : Consistent (Dim.leavesL v) :=
+    fun a ha b hb => hcons a (List.mem_append_left _ ha) b (List.mem_append_left _ hb)
+  have hm := leavesL_permute hperm hv'
+  have hm' : ∀ l, l ∈ Dim.leavesL v' ↔ l ∈ Dim.leavesL v := fun l => (hm l).symm
+  have hmf : ∀ l, l ∈ (Dim.leavesL v').filter (·.marked) ↔ l ∈ (Dim.leavesL v).filter (·.marked) := by
+    intro l; simp only [List.mem_filter, hm' l]
+  have hcf' : Consistent ((Dim.leavesL v').filter (·.marked)) := fun a ha b hb =>
+    hcv a ((hm' a).mp (List.mem_filter.mp ha).1) b ((hm' b).mp (List.mem_filter.mp hb).1)
+  have hperm_axes : markedAxes v' ~ markedAxes v := axesOf_perm hmf hcf'
+  -- pointwise, on the permuted enumeration
+  have hpt : (assignments (markedAxes v')).map (fun τ => (redCell v' (viewShape v') σ τ).map (subst [⟨plan.shape, plan.cells⟩]))
+      = (assignments (markedAxes v')).map (redCell v (viewShape v) σ) := by
+    apply List.map_congr_left
+    intro τ hτ
+    exact redCell_permute_input hperm hv' hc hcv hms hplan (valsInRange hm' hcons hσ hτ)
+  have hL : (assignments (markedAxes v')).map (redCell v (viewShape v) σ)
+      ~ (assignments (markedAxes v)).map (redCell v (viewShape v) σ) :=
+    assignments_map_perm hperm_axes _ (fun τ τ' h => redCell_congr (fun _ => rfl) h v _) (axesOf_nodup _)
+  have h1 : mapOpt id ((assignments (markedAxes v')).map (redCell v (viewShape v) σ))
+      = (redArgs v' (viewShape v') σ).map (List.map (subst [⟨plan.shape, plan.cells⟩])) := by
+    rw [← hpt, ← mapOpt_eq_id_map, mapOpt_optmap]; rfl
+  have h2 : mapOpt id ((assignments (markedAxes v)).map (redCell v (viewShape v) σ)) = redArgs v (viewShape v) σ := by
+    rw [← mapOpt_eq_id_map]; rfl
+  rcases mapOpt_id_perm hL with ⟨e1, e2⟩ | ⟨r1, r2, e1, e2, hp⟩
+  · left
+    rw [h1] at e1; rw [h2] at e2
+    exact ⟨by cases h : redArgs v' (viewShape v') σ <;> simp_all, e2⟩
+  · right
+    rw [h1] at e1; rw [h2] at e2
+    cases h : redArgs v' (viewShape v') σ with
+    | none => simp [h] at e1
+    | some r' =>
+      simp only [h, Option.map_some, Option.some.injEq] at e1
+      exact ⟨r', r2, rfl, e2, by rw [e1]; exact hp⟩
+
+theorem resort_subst_mkRed (regs : List (Tensor Cell)) (f : String) {r' r : List Cell}
+    (hp : r'.map (subst regs) ~ r) (hr : ∀ c ∈ r, Cell.resort c = c) :
+    Cell.resort (subst regs (mkRed f r')) = mkRed f r := by
+  match r', hp with
+  | [], hp =>
+    have : r = [] := by simpa using hp.symm.eq_nil
+    subst this
+    simp [mkRed, subst_app, Cell.resort, sortCells]
+  | [c'], hp =>
+    have : r = [subst regs c'] := by simpa using (List.perm_singleton.mp hp.symm)
+    subst this
+    simp only [mkRed]
+    exact hr _ (by simp)
+  | a :: b :: t, hp =>
+    have hlen := hp.length_eq
+    match r, hp, hlen with
+    | x :: y :: t', hp, _ =>
+      simp only [mkRed, subst_app, Cell.resort]
+      congr 1
+      exact sortCells_perm (((sortCells_perm_self (a :: b :: t)).map _).trans hp)
+
+theorem redArgs_src {v : List Dim} {s : List Nat} {σ : Assign} {r : List Cell} (h : redArgs v s σ = some r) :
+    ∀ c ∈ r, Cell.resort c = c := by
+  intro c hc
+  obtain ⟨τ, _, hτ⟩ := mapOpt_mem h hc
+  unfold redCell at hτ
+  cases ha : inputAssign σ τ (Dim.leavesL v) with
+  | none => simp [ha] at hτ
+  | some a =>
+    simp only [ha, cellAt] at hτ
+    cases hf : flatPos v s a with
+    | none => simp [hf] at hτ
+    | some k =>
+      simp only [hf, Option.map_some, Option.some.injEq] at hτ
+      subst hτ; rfl
+
+theorem redX_permute_input {f : String} {v v' w : List Dim} {perm : List Nat} {plan : Plan} {σ : Assign}
+    (hperm : isPermOf perm v.length = true) (hv' : permuteL perm v = some v')
+    (hc : Dim.concatFreeL v = true) (hcons : Consistent (Dim.leavesL v ++ Dim.leavesL w))
+    (hms : MarkSep (Dim.leavesL v)) (hplan : planInstr [viewShape v] (.transpose 0 perm) = .ok plan)
+    (hσ : σ ∈ outAssignments w) :
+    (redX f v' (viewShape v') σ).map (fun c => Cell.resort (subst [⟨plan.shape, plan.cells⟩] c))
+      = redX f v (viewShape v) σ := by
+  unfold redX
+  rcases redArgs_permute_input hperm hv' hc hcons hms hplan hσ with ⟨e1, e2⟩ | ⟨r', r, e1, e2, hp⟩
+  · rw [e1, e2]; rfl
+  · rw [e1, e2]
+    simp only [Option.map_some, Option.some.injEq]
+    exact resort_subst_mkRed _ f hp (redArgs_src e2)
+
+/-- **Permuting the root dimensions of the input view of a reduction -- bracketed or not -- together with the
+tensor leaves the whole result unchanged** (after re-canonicalising the reduction cells). -/
+theorem reduceCells_permute_input {f : String} {v v' w : List Dim} {sw perm : List Nat} {plan : Plan}
+    (hperm : isPermOf perm v.length = true) (hv' : permuteL perm v = some v')
+    (hc : Dim.concatFreeL v = true) (hcons : Consistent (Dim.leavesL v ++ Dim.leavesL w))
+    (hms : MarkSep (Dim.leavesL v)) (hplan : planInstr [viewShape v] (.transpose 0 perm) = .ok plan) :
+    (reduceCells f v' (viewShape v') w sw).map
+        (List.map (fun c => Cell.resort (subst [⟨plan.shape, plan.cells⟩] c)))
+      = reduceCells f v (viewShape v) w sw := by
+  unfold reduceCells
+  rw [← genCells_map]
+  exact genCells_congr (fun σ hσ => redX_permute_input hperm hv' hc hcons hms hplan hσ)
+
 end Einx.Denote
